@@ -2,8 +2,10 @@ package main
 
 import (
 	_ "verifmc/props/c02"
+	_ "verifmc/props/c06"
 	_ "verifmc/props/c07"
 	_ "verifmc/props/c08"
+	_ "verifmc/props/c16"
 
 	"verifmc/internal/xs"
 )
